@@ -577,41 +577,58 @@ func ruleCloseOrder(r *Run, p *Program, rule string) {
 // checkLoopSkipsOnlyNil: in a function ranging over datalog.segments, per-segment work (any call taking the element)
 // is skipped only when the element is nil.
 func checkLoopSkipsOnlyNil(r *Run, p *Program, rule string, f *ssa.Function) {
-	// find calls with receiver/arg derived from an element of datalog.segments
-	var work []ssa.Instruction
-	instrsOf(f, func(in ssa.Instruction) {
-		c, ok := in.(*ssa.Call)
-		if !ok {
-			return
+	// per-segment work: calls with receiver/argument derived from an element of datalog.segments - in f itself, or in a
+	// callback f hands to an iterator helper (resolved through the call string)
+	work := findWorkDeep(p, f, func(in ssa.Instruction) bool {
+		_, ok := in.(*ssa.Call)
+		return ok
+	})
+	var nodes []Node
+	for _, nd := range work {
+		c := nd.In.(*ssa.Call)
+		if funcKey(nd.Ctx.Fn) != funcKey(f) && (nd.Ctx.Parent == nil || !ctxHasFn(nd.Ctx, funcKey(f))) {
+			continue
+		}
+		// only the steps themselves, not what happens inside them
+		depthOK := true
+		for cx := nd.Ctx; cx != nil; cx = cx.Parent {
+			k := funcKey(cx.Fn)
+			if k == "pogreb.writeGobFile" || k == "pogreb.openFile" || strings.HasPrefix(k, "(*pogreb.file).") || strings.HasPrefix(k, "(*pogreb.segment).") {
+				depthOK = false
+			}
+		}
+		if !depthOK {
+			continue
 		}
 		vals := append([]ssa.Value{}, c.Call.Args...)
 		if c.Call.IsInvoke() {
 			vals = append(vals, c.Call.Value)
 		}
 		for _, v := range vals {
-			ap := accessPath(nil, v)
-			if isSegmentsElem(ap.Root) {
-				work = append(work, c)
-				return
+			if isSegmentsElem(accessPath(nd.Ctx, v).Root) {
+				nodes = append(nodes, nd)
+				break
 			}
 		}
-	})
-	if !r.anchor(rule, "per-segment calls in "+funcKey(f), len(work) > 0) {
+	}
+	if !r.anchor(rule, "per-segment calls in "+funcKey(f), len(nodes) > 0) {
 		return
 	}
 	// within one iteration, each per-segment call may be bypassed only for a nil entry (or on an error / the loop bound)
 	bad := false
-	first := work[0]
-	for _, wk := range work {
-		if wk.Pos() < first.Pos() {
-			first = wk
-		}
-	}
 	reported := map[token.Pos]bool{}
-	for _, target := range work {
-		w := &Walk{Fn: f, Stop: func(in ssa.Instruction) bool { return in == target }}
+	frame := func(fn *ssa.Function, ctx *Ctx, target ssa.Instruction) {
+		if !inCycle(target.Block()) {
+			// not the loop frame (the body of a callback): any bypass of the step here is a skip for a non-nil segment
+			if skipsOnlyFrameCtx(r, p, rule, funcKey(f)+":skips-only-nil", ctx, fn, target, func(c *Cond) bool { return false },
+				"a per-segment step of "+funcKey(f)+" can be skipped for a non-nil segment: that segment would not be synced/closed or its meta file not (re)written, so what the next session reads about it is stale") {
+				bad = true
+			}
+			return
+		}
+		w := &Walk{Fn: fn, Stop: func(in ssa.Instruction) bool { return in == target }}
 		w.From()
-		for _, b := range f.Blocks {
+		for _, b := range fn.Blocks {
 			if !sameCycle(b, target.Block()) {
 				continue
 			}
@@ -620,7 +637,7 @@ func checkLoopSkipsOnlyNil(r *Run, p *Program, rule string, f *ssa.Function) {
 				if c == nil || !w.Visited[b.Instrs[len(b.Instrs)-1]] {
 					continue
 				}
-				if !edgeDominatesNot(f, b, k, target) {
+				if !edgeDominatesNot(fn, b, k, target) {
 					continue
 				}
 				if isNilTestOfSegElem(c) {
@@ -642,6 +659,18 @@ func checkLoopSkipsOnlyNil(r *Run, p *Program, rule string, f *ssa.Function) {
 					r.bad(rule, funcKey(f)+":skips-only-nil", p.Pos(c.If.Cond.Pos()), "the loop over datalog.segments can skip a step ("+callString(callOf(target))+") for a non-nil segment ("+c.String(p)+"): that segment would not be synced/closed or its meta file not (re)written, so what the next session reads about it is stale")
 				}
 			}
+		}
+	}
+	for _, nd := range nodes {
+		site := nd.In
+		for ctx := nd.Ctx; ctx != nil && site != nil; ctx = ctx.Parent {
+			if site.Parent() == ctx.Fn {
+				frame(ctx.Fn, ctx, site)
+			}
+			if funcKey(ctx.Fn) == funcKey(f) {
+				break
+			}
+			site = ctx.Site
 		}
 	}
 	if !bad {
